@@ -12,35 +12,55 @@ def oracle_synth(pid, case, resp):
     Returns a list of explanations (empty = the property holds on this case)."""
     tree, given, out = case
     if "panic" in resp:
-        return ["the analysis panicked: " + str(resp["panic"])[:200]] if pid in ("C07", "C11", "C05", "C06", "C08", "C10", "C02") else []
+        return ["the analysis panicked or did not terminate: " + str(resp["panic"])[:200]] if pid in ("C07", "C11", "C05", "C06", "C08", "C10", "C02") else []
     accepted = bool(resp.get("set_ok")) and bool(resp.get("solved"))
     set_errs = synth.parse_errors(tree, resp.get("set_errs") or [])
     solve_errs = synth.parse_errors(tree, resp.get("solve_errs") or [])
+    return oracle_core(pid, case, accepted, bool(resp.get("set_ok")), set_errs, solve_errs, resp.get("calls") or [])
+
+
+def oracle_core(pid, case, accepted, set_ok, set_errs, solve_errs, calls, sig=None, inject_errs=()):
+    tree, given, out = case
     nested_dups = any(spec.duplicates(x) for x in spec.all_sets(tree) if x is not tree)
     dups = spec.duplicates(tree, given)
     cyc = spec.any_set_cyclic(tree, given)
     bad_binds = spec.misplaced_bindings(tree, given)
     out_msgs = []
+    if spec.has_chained_bindings(tree):
+        return out_msgs          # chained bindings are outside the documented form (DESIGN.md, C10 scope note)
+    item_errs = [d for d in set_errs if d[0] in ("DItem", "DUnparsed")]
     if pid == "C05":
         if (dups or nested_dups) and accepted:
             out_msgs.append("types %s have two sources in the closure but the set was accepted" % sorted(dups))
-        if dups and not nested_dups and not resp.get("set_ok") and not cyc and not bad_binds:
+        if dups and not nested_dups and not set_ok and not cyc and not bad_binds and not item_errs:
             named = {d[1] for d in set_errs if d[0] == "DMulti"}
             if not (named & dups):
                 out_msgs.append("duplicated types %s, but no multiple-bindings error names one of them (got %s)" % (sorted(dups), set_errs))
         if not dups and not nested_dups and any(d[0] == "DMulti" for d in set_errs):
             out_msgs.append("multiple-bindings error although every type has one source")
     elif pid == "C07":
-        if cyc and resp.get("set_ok"):
+        if cyc and set_ok:
             out_msgs.append("a provider set in the closure has a dependency cycle but was accepted")
         if not cyc and any(d[0] == "DCycle" for d in set_errs):
             out_msgs.append("cycle diagnostic although no set in the closure has a cycle")
     elif pid == "C11":
-        if bad_binds and not dups and not nested_dups and resp.get("set_ok"):
+        if bad_binds and not dups and not nested_dups and set_ok:
             out_msgs.append("bindings %s sit in a set that does not provide their concrete type, yet the set was accepted" % bad_binds)
-    elif pid in ("C06", "C08", "C10", "C02") and resp.get("set_ok") and not dups and not nested_dups and not cyc and not bad_binds:
+        if not bad_binds and any(d[0] == "DBindMissing" for d in set_errs):
+            out_msgs.append("binding reported as lacking its concrete type although its set provides it")
+    elif pid in ("C06", "C08", "C10", "C02", "C09") and set_ok and not dups and not nested_dups and not cyc and not bad_binds:
         miss = spec.missing(tree, given, out)
         unused = spec.unused_direct(tree, given, out) if not miss else []
+        needs = []
+        if sig is not None and not miss and not unused:
+            seen, direct, binds = spec.needed(tree, given, out)
+            for t in sorted(seen):
+                if t in direct and direct[t][0] == "prov":
+                    pr = direct[t][1]
+                    if pr["cleanup"] and not sig[0]:
+                        needs.append(("DNeedsCleanup", t))
+                    if pr["err"] and not sig[1]:
+                        needs.append(("DNeedsErr", t))
         if pid == "C06":
             if miss and accepted:
                 out_msgs.append("types %s are needed and have no source, yet the injector was accepted" % sorted(miss))
@@ -57,11 +77,18 @@ def oracle_synth(pid, case, resp):
                 if unused and accepted:
                     out_msgs.append("unused direct items %s yet accepted" % sorted(unused))
         elif pid == "C10":
-            if not miss and not unused and not accepted:
-                out_msgs.append("well-formed program rejected: %s" % (set_errs + solve_errs))
+            if not miss and not unused and not needs and not accepted:
+                out_msgs.append("well-formed program rejected: %s" % (set_errs + solve_errs + list(inject_errs)))
+        elif pid == "C09":
+            if sig is not None and not miss and not unused:
+                if needs and accepted:
+                    out_msgs.append("injector lacks the error/cleanup result that a needed provider returns (%s) yet was accepted" % needs)
+                rep = sorted(d for d in inject_errs if d[0] in ("DNeedsCleanup", "DNeedsErr"))
+                if sorted(set(needs)) != sorted(set(rep)):
+                    out_msgs.append("needs %s but reported %s" % (sorted(set(needs)), rep))
         elif pid == "C02":
-            if accepted:
-                out_msgs += spec.check_plan(tree, given, out, resp.get("calls") or [])
+            if accepted and calls is not None:
+                out_msgs += spec.check_plan(tree, given, out, calls)
     return out_msgs
 
 
@@ -153,7 +180,7 @@ def eng_synth(pid, tier, wd, known, replay=None):
             j = int(tags[i].split(":")[1])
             a = bool(resps[j].get("set_ok")) and bool(resps[j].get("solved"))
             b = bool(r.get("set_ok")) and bool(r.get("solved"))
-            same = a == b
+            same = (a == b) if tags[i].startswith("perm-of:") else (b or not a)
             if a and b:
                 wa = sorted((x["kind"], x["name"], x["out"], tuple(x["ins"])) for x in resps[j]["calls"])
                 wb = sorted((x["kind"], x["name"], x["out"], tuple(x["ins"])) for x in r["calls"])
@@ -175,11 +202,93 @@ def eng_synth(pid, tier, wd, known, replay=None):
 
 
 # ---------------------------------------------------------------------------------------------
+# Engine: funcOutput decision table, regenerated from the code on every run, checked by a table theorem
+# ---------------------------------------------------------------------------------------------
+RK = {"val": "RVal", "error": "RError", "cleanup": "RCleanup", "namedfunc": "RNamedFunc", "otherfunc": "ROtherFunc",
+      "namederr": "RNamedErr", "funcerr": "RFuncErr"}
+
+
+def fo_observed(r):
+    if "panic" in r:
+        return "FoTooMany (* panic *)", "panic"
+    if r["ok"]:
+        return "(FoOk %s %s)" % (coq_bool(r["cleanup"]), coq_bool(r["err"])), "ok"
+    m = r["msg"]
+    if m == "no return values":
+        return "FoNoReturn", "none"
+    if m == "too many return values":
+        return "FoTooMany", "many"
+    if m.startswith("second return type") and m.endswith("must be error or func()"):
+        return "FoSecond", "second"
+    if m.startswith("second return type") and m.endswith("must be func()"):
+        return "FoSecondOf3", "second3"
+    if m.startswith("third return type"):
+        return "FoThird", "third"
+    return "FoTooMany (* unparsed *)", "unparsed:" + m
+
+
+def eng_funcoutput(pid, tier, wd, known, replay=None):
+    import itertools
+    kinds = list(RK)
+    shapes = [list(c) for n in range(0, 5) for c in itertools.product(kinds, repeat=n)]
+    resps = hook([{"op": "funcoutput", "kinds": sh} for sh in shapes])
+    rows, dist = [], {}
+    for sh, r in zip(shapes, resps):
+        o, k = fo_observed(r)
+        dist[k.split(":")[0]] = dist.get(k.split(":")[0], 0) + 1
+        rows.append("(%s, %s)" % (coq_list([RK[x] for x in sh]), o))
+    f = os.path.join(wd, "FuncOutputTable.v")
+    with open(f, "w") as fh:
+        fh.write("From Coq Require Import List Bool.\nFrom Wire Require Import Front.\nImport ListNotations.\n")
+        fh.write("Definition table : list (list rkind * fo_result) := [\n" + ";\n".join(rows) + "\n].\n")
+        fh.write("Definition bad := Eval vm_compute in map fst (filter (fun r => negb (fo_eqb (func_output (fst r)) (snd r))) table).\nPrint bad.\n")
+        fh.write("(* the regenerated table theorem: the real funcOutput equals the model on every shape of length 0..4 over 7 kinds *)\n")
+        fh.write("Theorem func_output_table : forallb (fun r => fo_eqb (func_output (fst r)) (snd r)) table = true.\nProof. vm_compute. reflexivity. Qed.\n")
+        fh.write("Theorem func_output_table_all : forall rs o, In (rs, o) table -> fo_eqb (func_output rs) o = true.\n"
+                 "Proof. intros rs o H. exact (proj1 (forallb_forall _ _) func_output_table (rs, o) H). Qed.\nPrint Assumptions func_output_table_all.\n")
+    rc, out, err = coqc(f)
+    viol = []
+    if rc != 0 or "Closed under the global context" not in out:
+        m = re.search(r"bad\s*=\s*(\[.*?\])\s*:", out, re.S)
+        badtxt = m.group(1) if m else (err or out)[-800:]
+        # the property oracle: which shapes does the implementation now classify against the documented rule?
+        wrong = []
+        for sh, r in zip(shapes, resps):
+            legal = (len(sh) == 1) or (len(sh) == 2 and sh[1] in ("error", "cleanup")) or (len(sh) == 3 and sh[1] == "cleanup" and sh[2] == "error")
+            if bool(r.get("ok")) != legal or (r.get("ok") and ((len(sh) >= 2 and (r["err"] != (sh[-1] == "error") or r["cleanup"] != (sh[1] == "cleanup"))))):
+                wrong.append({"results": sh, "impl": r})
+        payload = {"property": pid, "kind": "failing-input" if wrong else "no-failing-input-found",
+                   "broken": "table theorem func_output_table (regenerated from funcOutput)", "input": {"shapes": wrong[:5]},
+                   "model_disagrees_on": badtxt[:1500], "oracle": ["funcOutput accepts/rejects these result lists against the documented rule"] if wrong else [], "seed": seed()}
+        viol.append((payload, bool(wrong)))
+    return {"name": "funcoutput-table", "evaluations": len(shapes), "distinct_nontrivial": len(shapes) - 1, "exhaustive": True,
+            "samples": [{"results": shapes[400], "impl": resps[400]}], "traces": len(shapes), "stats": {"classes": dist},
+            "rule": "every result list of length 0..4 over {value, error, func(), named func type, other func type, named interface embedding error, func() error} through the real funcOutput (hook); table theorem re-proved by vm_compute",
+            "violations": viol, "known": []}
+
+
+# ---------------------------------------------------------------------------------------------
+import engprog
+engprog.props_oracle_core = oracle_core
+eng_prog = engprog.eng_prog
+
+SYNTH_NOTE = "explicit loop bounds of the model (acyc_fuel, solve_fuel) are validated by the correspondence run; the theorems hold for whatever fuel completes the run"
 PROPS = {
+    "C02": {"theorems": ["C03_failure"], "engines": [eng_synth, eng_prog], "assumptions": [SYNTH_NOTE]},
+    "C03": {"theorems": ["C03_failure"], "engines": [eng_prog],
+            "assumptions": ["Go semantics of the emitted fragment (short variable declarations, if, calls, closures) is Exec.v's reading of the Go spec, validated by the runtime traces of every generated injector under every single-provider failure"]},
+    "C04": {"theorems": ["C04_success"], "engines": [eng_prog],
+            "assumptions": ["Go semantics of the emitted fragment is Exec.v's reading of the Go spec, validated by runtime traces"]},
+    "C05": {"theorems": ["C05_never_picks", "C05_closure_spelled_out", "C05_conflict_is_real"], "engines": [eng_synth, eng_prog], "assumptions": [SYNTH_NOTE]},
+    "C06": {"theorems": ["C05_never_picks"], "engines": [eng_synth, eng_prog], "assumptions": [SYNTH_NOTE]},
     "C07": {"theorems": ["C07_cycles_detected", "C07_only_cycle_errors", "C07_terminates", "C07_machine_refines_dfs"],
-            "engines": [eng_synth],
-            "assumptions": ["explicit step bound of the loop (acyc_fuel) is validated by the correspondence run, not proved: the theorems hold for whatever fuel completes the run",
-                            "wall-clock behaviour is runtime, sampled on lattices/chains only"]},
+            "engines": [eng_synth, eng_prog],
+            "assumptions": [SYNTH_NOTE, "wall-clock behaviour is runtime, sampled on lattices/chains only"]},
+    "C08": {"theorems": ["C05_never_picks"], "engines": [eng_synth, eng_prog], "assumptions": [SYNTH_NOTE]},
+    "C09": {"theorems": ["C09_results", "C09_rejects", "C09_identical_types_rejected"], "engines": [eng_funcoutput, eng_prog],
+            "assumptions": ["result kinds are abstracted to what funcOutput can distinguish (identity with error / func())"]},
+    "C10": {"theorems": ["C10_phase_order_independent", "C05_never_picks"], "engines": [eng_synth, eng_prog], "assumptions": [SYNTH_NOTE]},
+    "C11": {"theorems": ["C11_colocated"], "engines": [eng_synth, eng_prog], "assumptions": [SYNTH_NOTE, "Go's method-set rule (types.Implements) is go/types' and is not modelled"]},
 }
 
 HOOK_COMMITS = ["fc0854c"]
